@@ -2161,7 +2161,12 @@ func (r *Repository) createNewObjectPack(cfg *RepackConfig) (h plumbing.Hash, er
 	if err != nil {
 		return h, err
 	}
-	defer ioutil.CheckClose(wc, &err)
+	closed := false
+	defer func() {
+		if !closed {
+			ioutil.CheckClose(wc, &err)
+		}
+	}()
 	scfg, err := r.Config()
 	if err != nil {
 		return h, err
@@ -2169,6 +2174,15 @@ func (r *Repository) createNewObjectPack(cfg *RepackConfig) (h plumbing.Hash, er
 	enc := packfile.NewEncoder(wc, r.Storer, cfg.UseRefDeltas)
 	h, err = enc.Encode(objs, scfg.Pack.Window)
 	if err != nil {
+		return h, err
+	}
+
+	// The pack only becomes visible when its writer is closed (index written,
+	// temporary file renamed into place). Do that before any loose object is
+	// removed: a process that dies in between must not leave a repository
+	// whose objects exist neither loose nor in a pack.
+	closed = true
+	if err = wc.Close(); err != nil {
 		return h, err
 	}
 
